@@ -291,7 +291,9 @@ def sc_mapping(rng, consts, nparams, op):
         params.append(p)
         sc.obs(pl); sc.obs(p)
         if rng.random() < 0.6:
-            sc.emit('setinit %s %s' % (p, sc.expr()), 'ok')
+            # the default argument may be any expression node, a phantom (typed by nothing) included
+            init = sc.expr() if rng.random() < 0.7 else sc.nodes('phantom', 1)[0]
+            sc.emit('setinit %s %s' % (p, init), 'ok')
             sc.obs(p)
             if rng.random() < 0.3:
                 sc.emit('setinit %s -' % p, 'ok')
@@ -315,6 +317,19 @@ def sc_mapping(rng, consts, nparams, op):
             sc.obs(t)
         sc.emit('sethome %s %s' % (t, region), 'ok')
         sc.obs(t)
+        # a REDECLARATION of the primary template (same name, same type) and a secondary template, each with a mapping of its own:
+        # parameters() / result() are those of the node's own mapping
+        tname = sc.ident()
+        for top in ('template', 'template', 'template2'):
+            (t2,) = sc.nodes('%s %s %s %s' % (top, region, tname, fa), 1)
+            m2 = sc.nodes('mapping %s #%d' % (region, rng.randrange(4)), 4)[0]
+            for _ in range(rng.randint(0, 3)):
+                sc.nodes('param %s %s %s' % (m2, sc.ident(), rng.choice(sc.types)), 1)
+            sc.obs(t2)
+            sc.emit('settmap %s %s' % (t2, m2), 'ok')
+            sc.obs(t2)
+            sc.emit('setresult %s %s' % (m2, sc.expr()), 'ok')
+            sc.obs(t2)
         (ft,) = sc.nodes('mk Function %s %s %s' % (prod, rng.choice(sc.types), sc.lit()), 1)
         (f,) = sc.nodes('fundecl %s %s %s' % (region, sc.ident(), ft), 1)
         sc.obs(f)
